@@ -22,6 +22,21 @@ FAMILIES = {
     "call_args": lambda n: "f = lambda *a: len(a)\nRESULT = f(" + ", ".join(str(i) for i in range(n)) + ")\n",
     "fstring_fields": lambda n: "x = 1\nRESULT = len(f'" + "{x}" * n + "')\n",
     "string_concat": lambda n: "RESULT = len(" + " ".join("'a%d'" % i for i in range(n)) + ")\n",
+    # one statement with N targets; right-nested lambdas / conditional expressions need no parentheses
+    "chained_targets": lambda n: " = ".join("a%d" % i for i in range(n)) + " = 7\nRESULT = a0 + a%d\n" % (n - 1),
+    "chained_targets_in_func": lambda n: "def f():\n    " + " = ".join("a%d" % i for i in range(n)) + " = 7\n    return a0 + a%d\nRESULT = f()\n" % (n - 1),
+    "lambda_tower": lambda n: "f = " + "lambda: " * n + "1\nfor _ in range(%d):\n    f = f()\nRESULT = f\n" % n,
+    "lambda_tower_in_class": lambda n: "class K:\n    f = " + "lambda: " * n + "1\nf = K.f\nfor _ in range(%d):\n    f = f()\nRESULT = f\n" % n,
+    "lambda_tower_in_func": lambda n: "def mk():\n    v = 1\n    return " + "lambda: " * n + "v\nf = mk()\nfor _ in range(%d):\n    f = f()\nRESULT = f\n" % n,
+    "ifexp_tower": lambda n: "x = 0\nRESULT = " + "1 if x else " * n + "2\n",
+    "comp_clauses": lambda n: "RESULT = len([0 " + " ".join("for i%d in [1]" % i for i in range(n)) + "])\n",
+    "comp_conditions": lambda n: "RESULT = len([0 for i in [1] " + " ".join("if i" for i in range(n)) + "])\n",
+    "decorators": lambda n: "def d(f):\n    return lambda: f() + 1\n" + "@d\n" * n + "def g():\n    return 0\nRESULT = g()\n",
+    "class_bases_kw": lambda n: "class B:\n    def __init_subclass__(cls, **kw):\n        cls.n = len(kw)\nclass K(B, " + ", ".join("k%d=%d" % (i, i) for i in range(n)) + "):\n    pass\nRESULT = K.n\n",
+    "params": lambda n: "def f(" + ", ".join("p%d=%d" % (i, i) for i in range(n)) + "):\n    return p%d\nRESULT = f()\n" % (n - 1),
+    "global_names": lambda n: "def f():\n    global " + ", ".join("g%d" % i for i in range(n)) + "\n" + "".join("    g%d = %d\n" % (i, i) for i in range(n)) + "f()\nRESULT = g%d\n" % (n - 1),
+    "import_names": lambda n: "from math import " + ", ".join("floor as f%d" % i for i in range(n)) + "\nRESULT = f%d(1.5)\n" % (n - 1),
+    "destructure_wide": lambda n: ", ".join("a%d" % i for i in range(n)) + " = range(%d)\nRESULT = a%d\n" % (n, n - 1),
     # nesting
     "nest_if": lambda n: "x = 1\n" + "".join(" " * i + "if x:\n" for i in range(n)) + " " * n + "y = 1\nRESULT = y\n",
     "nest_for": lambda n: "".join(" " * i + "for i%d in [1]:\n" % i for i in range(n)) + " " * n + "y = 1\nRESULT = y\n",
@@ -65,7 +80,9 @@ NESTING = ("nest_if", "nest_for", "nest_while", "nest_mixed", "nest_def", "nest_
            "nest_parens_tuple", "nest_ifexp", "binop_right")
 NEST_SCHEDULE = (5, 10, 20, 40, 60, 80, 95)
 # chains that the recursive stdlib unparser walks one frame (or more) per link
-CHAIN_LIKE = ("elif_chain", "binop_left", "calls", "attrs", "subscripts") + tuple("chain_at:" + k for k in CHAIN_AT)
+CHAIN_LIKE = ("elif_chain", "binop_left", "calls", "attrs", "subscripts", "chained_targets", "chained_targets_in_func",
+              "lambda_tower", "lambda_tower_in_class", "lambda_tower_in_func", "ifexp_tower", "decorators",
+              "comp_clauses", "comp_conditions") + tuple("chain_at:" + k for k in CHAIN_AT)
 IF_STYLE_SENSITIVE = ("elif_chain", "nest_if", "nest_mixed")
 
 
@@ -88,5 +105,7 @@ def composed(kind, n1, n2):
 
 COMPOSED = ("chain_in_stmts", "chain_in_func_in_loop", "stmts_in_nest", "elif_in_class_method")
 
-STATEMENT_COUNT = ("stmts_aug", "stmts_assign", "stmts_calls", "defs", "stmts_in_func", "stmts_in_loop")
+STATEMENT_COUNT = ("stmts_aug", "stmts_assign", "stmts_calls", "defs", "stmts_in_func", "stmts_in_loop",
+                   # one statement that is lowered to N expressions in sequence
+                   "global_names", "import_names", "destructure_wide", "chained_targets", "chained_targets_in_func")
 SCHEDULE = (10, 30, 100, 300, 1000, 3000, 10000)
